@@ -5,49 +5,57 @@ from __future__ import annotations
 from typing import Any
 
 from vf import gen_bp, oracle_bp
+from vf import fuzz
 from vf.core import Ctx, HarnessError, require, sut
 
-META = {
-    "rule": "a feasible packing (layout of the documented decoding rule for "
-            "instances of all 9 size classes incl. bins up to 10^12, "
-            "guillotine layouts with unsorted rows, one item per bin; "
-            "optionally rows shuffled / bins renamed / sparse extra last "
-            "bin) is handed to validate unchanged (sub-check 'feasible') or "
-            "after 1..3 corruptions drawn from a catalogue of 22 kinds (ids, "
-            "shifted / resized / turned / overlapping / outside rectangles, "
-            "bin ids incl. gaps, zero, negative and too large ones, n_bins "
-            "value and type, dtype, shape, foreign instance object, plain "
-            "ndarray; sub-checks 'mutated' with bins < 10^9 and "
-            "'mutated_huge' with bins of 2^30..10^12). Both directions are "
-            "decided by the oracle on every case: validate raises "
-            "ValueError/TypeError <=> the oracle finds the matrix "
-            "infeasible; from_str(to_str(y)) raises <=> the parsed matrix "
-            "with n_bins = max bin id is infeasible, and otherwise equals y. "
-            "A case is non-trivial when the oracle finds it infeasible by "
-            "exactly one clause, or feasible with rows that no decoder "
-            "produces (guillotine / re-arranged / accidentally harmless "
-            "corruption); distinct = distinct (instance, matrix, n_bins, "
-            "container) cases",
-    "assumptions": [
-        "feasibility is judged by vf/oracle_bp.infeasibility_ext (pure "
-        "Python, no code of the package)",
-        "corrupted values stay inside the storage type of the instance, so "
-        "every case is a representable packing array and its text form "
-        "parses without overflow",
-        "a packing object is built as ndarray.view(Packing) with the "
-        "attributes instance and n_bins set (numpy drops them on astype / "
-        "slicing, DESIGN.md O2)"],
-    "shards": [4, 16],
-    "technique": "property-based testing: Hypothesis-generated feasible "
-                 "packings and catalogue-driven corruptions against an "
-                 "independent geometric feasibility checker",
-    "level_text": "validate raises exactly on the matrices an independent "
-                  "feasibility checker rejects, and from_str(to_str(y)) "
-                  "round-trips, on generated feasible and corrupted "
-                  "packings",
-    "level_note": "trusts vf/oracle_bp.infeasibility_ext; corruptions are "
-                  "limited to the catalogue in vf/gen_bp.py (1..3 per case)",
-}
+META = {'rule': 'a feasible packing (layout of the documented decoding rule for '
+         'instances of all 9 size classes incl. bins up to 10^12, guillotine '
+         'layouts with unsorted rows, one item per bin; optionally rows '
+         'shuffled / bins renamed / sparse extra last bin) is handed to '
+         "validate unchanged (sub-check 'feasible') or after 1..3 "
+         'corruptions drawn from a catalogue of 22 kinds (ids, shifted / '
+         'resized / turned / overlapping / outside rectangles, bin ids incl. '
+         'gaps, zero, negative and too large ones, n_bins value and type, '
+         'dtype, shape, foreign instance object, plain ndarray; sub-checks '
+         "'mutated' with bins < 10^9 and 'mutated_huge' with bins of "
+         '2^30..10^12). Both directions are decided by the oracle on every '
+         'case: validate raises ValueError/TypeError <=> the oracle finds '
+         'the matrix infeasible; from_str(to_str(y)) raises <=> the parsed '
+         'matrix with n_bins = max bin id is infeasible, and otherwise '
+         'equals y. A case is non-trivial when the oracle finds it '
+         'infeasible by exactly one clause, or feasible with rows that no '
+         'decoder produces (guillotine / re-arranged / accidentally harmless '
+         'corruption); distinct = distinct (instance, matrix, n_bins, '
+         "container) cases Additionally 'fuzz_packing': coverage-guided "
+         'fuzzing (atheris/libFuzzer) of PackingSpace.from_str on three '
+         'fixed instances: from_str must return exactly when the '
+         'independently parsed numbers form a feasible packing (judged by '
+         'vf/oracle_bp), and return those numbers; non-trivial fuzz inputs = '
+         'distinct accepted texts.',
+ 'assumptions': ['feasibility is judged by vf/oracle_bp.infeasibility_ext '
+                 '(pure Python, no code of the package)',
+                 'corrupted values stay inside the storage type of the '
+                 'instance, so every case is a representable packing array '
+                 'and its text form parses without overflow',
+                 'a packing object is built as ndarray.view(Packing) with '
+                 'the attributes instance and n_bins set (numpy drops them '
+                 'on astype / slicing, DESIGN.md O2)',
+                 'fuzz targets: inputs the independent oracle cannot '
+                 'interpret and exceptions other than the documented '
+                 "rejection are counted, not reported; libFuzzer's -seed "
+                 'pins a campaign only approximately, the saved input is the '
+                 'reproducible unit'],
+ 'shards': [4, 16],
+ 'technique': 'property-based testing: Hypothesis-generated feasible '
+              'packings and catalogue-driven corruptions against an '
+              'independent geometric feasibility checker + coverage-guided '
+              'fuzzing (atheris) of from_str with the independent '
+              'feasibility oracle',
+ 'level_text': 'validate raises exactly on the matrices an independent '
+               'feasibility checker rejects, and from_str(to_str(y)) '
+               'round-trips, on generated feasible and corrupted packings',
+ 'level_note': 'trusts vf/oracle_bp.infeasibility_ext; corruptions are '
+               'limited to the catalogue in vf/gen_bp.py (1..3 per case)'}
 
 
 def _n_bins_value(v: Any) -> Any:
@@ -216,6 +224,7 @@ def check_validate(ctx: Ctx, case: dict) -> None:
 
 SUBS = {"feasible": check_validate, "mutated": check_validate,
         "mutated_huge": check_validate}
+SUBS["fuzz_packing"] = fuzz.make_sub("packing")
 
 SMALL = ("tiny", "small", "medium", "int8_edge", "int16_edge_thin",
          "int16_2d", "nitems_edge")
@@ -238,3 +247,5 @@ def run(ctx: Ctx) -> None:
                                      guillotine_share=0, max_items=mi,
                                      max_types=mt),
               check_validate, quick=800, thorough=16 * 1500)
+    fuzz.run_target(ctx, "packing", quick_runs=120_000,
+                    thorough_runs=16 * 1_000_000)
